@@ -89,7 +89,45 @@ func (c *CallInfo) IsIfaceMethod(pkgPath, iface, method string) bool {
 		return false
 	}
 	n := NamedOf(c.IfaceRecv)
-	return n != nil && n.Obj().Pkg() != nil && n.Obj().Pkg().Path() == pkgPath && TName(n) == iface
+	if n != nil && n.Obj().Pkg() != nil && n.Obj().Pkg().Path() == pkgPath && TName(n) == iface {
+		return true
+	}
+	// A narrower or differently named interface (`type adder interface{ Add(...) }`, an embedded
+	// subset) through which every implementation of pkgPath.iface can be reached: the reference
+	// interface satisfies it and the method has the reference method's signature.  Such a call is
+	// a call of the reference method as far as the rules are concerned (no side door).
+	if c.IfaceRecv == nil || c.Instr == nil || c.Instr.Parent() == nil {
+		return false
+	}
+	it, ok := c.IfaceRecv.Underlying().(*types.Interface)
+	if !ok || it.NumMethods() == 0 {
+		return false
+	}
+	sp := c.Instr.Parent().Prog.ImportedPackage(pkgPath)
+	if sp == nil {
+		return false
+	}
+	sc := sp.Pkg.Scope()
+	for _, name := range sc.Names() {
+		tn, ok := sc.Lookup(name).(*types.TypeName)
+		if !ok {
+			continue
+		}
+		ref, ok := tn.Type().(*types.Named)
+		if !ok || TName(ref) != iface {
+			continue
+		}
+		rit, ok := ref.Underlying().(*types.Interface)
+		if !ok || !types.Implements(ref, it) {
+			continue
+		}
+		for i := 0; i < rit.NumMethods(); i++ {
+			if m := rit.Method(i); m.Name() == method && types.Identical(m.Type(), c.Method.Type()) {
+				return true
+			}
+		}
+	}
+	return false
 }
 
 // MethodOn reports a call (static or invoke) of a method named `method` whose
